@@ -12,10 +12,23 @@ From PV Require Import Gen.C20_Tables.
    what comes out (NoSuchProcess / ZombieProcess / AccessDenied carrying pid and cached name,
    other errors unchanged, PID-0 rule on BSD and Solaris, the commented fall-backs) *)
 Theorem C20_ladder_model : forall p meth site c r,
-  err_ok p (c_err c) = true ->
+  err_ok p (c_err c) = true -> known_pid0_unlisted p meth site c = false ->
   demanded p meth site c = Some r -> method_outcome p meth site c = r.
 Proof. exact ladder_model. Qed.
 Print Assumptions C20_ladder_model.
+
+(* finding (excluded above): a PID 0 that the OS does NOT list is still taken to exist, because
+   _psposix.pid_exists(0) is True unconditionally -- Solaris reports ZombieProcess for a no-such-process
+   failure on it, NetBSD cmdline() swallows EINVAL for it *)
+Theorem C20_pid0_unlisted_refuted :
+  (exists c, err_ok SunOS (c_err c) = true /\ c_pid0 c = true /\ c_state c = Gone
+             /\ demanded SunOS "ppid" "proc_basic_info" c = Some RNoSuch
+             /\ method_outcome SunOS "ppid" "proc_basic_info" c = RZombie)
+  /\ (exists c, err_ok NetBSD (c_err c) = true /\ c_pid0 c = true /\ c_state c = Gone
+               /\ demanded NetBSD "cmdline" "proc_cmdline" c = Some RNoSuch
+               /\ method_outcome NetBSD "cmdline" "proc_cmdline" c = RVal).
+Proof. exact pid0_unlisted_refuted. Qed.
+Print Assumptions C20_pid0_unlisted_refuted.
 
 (* what fix a2d103c repaired: with Windows ppid() undecorated (legacy variant of the model) a
    permission failure of ppid_map() left as the bare error; the present model gives AccessDenied *)
@@ -29,9 +42,35 @@ Print Assumptions C20_ppid_unwrapped_legacy_refuted.
 (* the CODE (probed over the stub native layer, every platform x method x native call x error
    x state x pid): every outcome meets the contract, with pid and cached name carried *)
 Theorem C20_ladder_contract : forall b, In b ladder_blocks ->
-  Forall2 (fun c g => gout_ok (demanded (l_plat b) (l_meth b) (l_site b) c) g = true) (conds (l_plat b)) (l_outs b).
+  Forall2 (fun c g => known_pid0_unlisted (l_plat b) (l_meth b) (l_site b) c = false ->
+                      gout_ok (demanded (l_plat b) (l_meth b) (l_site b) c) g = true) (conds (l_plat b)) (l_outs b).
 Proof. exact ladder_contract. Qed.
 Print Assumptions C20_ladder_contract.
+
+Theorem C20_pid0_unlisted_in_tables :
+  exists b, In b ladder_blocks /\ l_plat b = SunOS /\
+    forallb2 (fun c g => gout_ok (demanded (l_plat b) (l_meth b) (l_site b) c) g) (conds (l_plat b)) (l_outs b) = false.
+Proof. exact pid0_unlisted_in_tables. Qed.
+Print Assumptions C20_pid0_unlisted_in_tables.
+
+(* the zombie test, for EVERY native status code of every platform's PROC_STATUSES (x method x native
+   call x pid in {7,0}): ESRCH gives ZombieProcess exactly for the codes that mean zombie (on OpenBSD
+   SDEAD and SZOMB), NoSuchProcess for the others (Solaris/AIX: nothing demanded for those) -- and equals the model *)
+Theorem C20_zombie_by_status_code : forall b, In b status_blocks ->
+  Forall2 (fun z g => gout_ok (demanded (sb_plat b) (sb_meth b) (sb_site b) (scond (sb_plat b) (sb_code b) z)) g = true
+                      /\ gout_ok (Some (method_outcome (sb_plat b) (sb_meth b) (sb_site b) (scond (sb_plat b) (sb_code b) z))) g = true)
+          [false; true] (sb_outs b).
+Proof. exact zombie_by_status_code. Qed.
+Print Assumptions C20_zombie_by_status_code.
+
+(* PROC_STATUSES maps a native code to "zombie" exactly for the documented zombie codes; the sweep above
+   has a block for every (ladder block, status code) *)
+Theorem C20_status_codes_documented : forall r, In r status_rows -> srow_ok r = true.
+Proof. exact status_codes_documented. Qed.
+Print Assumptions C20_status_codes_documented.
+Theorem C20_status_sweep_complete : sblocks_complete status_rows ladder_blocks status_blocks = true.
+Proof. exact status_sweep_complete. Qed.
+Print Assumptions C20_status_sweep_complete.
 
 (* ... and equals the hand-written model on every row *)
 Theorem C20_ladder_tables_equal_model : forall b, In b ladder_blocks ->
